@@ -692,6 +692,17 @@ theorem inv_newInst {s : State} (I : Inv s) (h : Nat) (id : Int) (name : Nat) :
       rw [e n hn]; exact I.nonzero n hn
     · exact I.cap
 
+theorem checkCap_ge (b i : Nat) : b ≤ checkCap b i := by
+  unfold checkCap
+  split
+  · have : i < growTo i := by unfold growTo; omega
+    omega
+  · exact Nat.le_refl _
+
+theorem inv_lookup {s : State} (I : Inv s) (i : Nat) : Inv (lookup s i).1 ∧ (lookup s i).2 ≠ .crash := by
+  refine ⟨⟨I.idx, I.nidLt, I.nidNodup, I.instNodup, I.alive, I.keysNodup, I.sortedIff, I.maxGe, I.nonzero, ?_⟩, by simp [lookup]⟩
+  exact Nat.le_trans I.cap (checkCap_ge _ _)
+
 /-! ### every operation, every history -/
 theorem inv_step {s : State} (I : Inv s) (op : Op) : Inv (step s op).1 ∧ (step s op).2 ≠ .crash := by
   cases op with
@@ -702,6 +713,7 @@ theorem inv_step {s : State} (I : Inv s) (op : Op) : Inv (step s op).1 ∧ (step
   | changeState i st => exact inv_changeState I i st
   | clear => exact inv_clear I
   | deleteAll => exact inv_deleteAll I
+  | lookup i => exact inv_lookup I i
 
 theorem inv_run {s : State} (I : Inv s) (ops : List Op) : Inv (run s ops) := by
   induction ops generalizing s with
